@@ -48,6 +48,25 @@ PROPS = {
                      'thrown at the wait is `abort`; that the kernel delivers exactly these is shown by the exact trace correspondence, not proved'],
         partial=['projection lemma machine -> open lock model is not proved (tied by correspondence only)'],
     ),
+    'C10': dict(
+        gen=['Stream', 'Lock'], props=['C10', 'C09'], model=['Prim/Stream', 'Prim/Lock', 'Machine/Run', 'Judge/Judges'], harness='c10',
+        trusted_base=KERNEL_TB + MACHINE_TB + [
+            'shape templates (exact AST match, else broken obligation): Queue.put/_await_message/close/__aiter__/__await__ and the lock methods',
+        ],
+        assumptions=['the open queue model collapses every non-buffer action (mutex hand-over, waits, aborts) into `other`; that the '
+                     'code touches the buffer only in put/popleft is pinned by the templates and checked by the exact trace correspondence',
+                     'receiver order follows from the read mutex (C09 theorems are part of this check)'],
+        partial=['receivers_fifo is inherited from the lock theorems (designation_is_head), not restated on the queue model'],
+    ),
+    'C11': dict(
+        gen=['Stream'], props=['C11'], model=['Prim/Stream', 'Machine/Run', 'Judge/Judges'], harness='c11',
+        trusted_base=KERNEL_TB + MACHINE_TB + [
+            'shape templates (exact AST match, else broken obligation): Channel.put/__await__/__aiter__/close',
+            'prompt finalisation of abandoned async generators (reference counting) is assumed',
+        ],
+        assumptions=['consumers are identified by their registration key (the sentinel object)'],
+        partial=[],
+    ),
 }
 
 #: texts for MANIFEST.json (level, note, technique, DESIGN.md section)
@@ -87,4 +106,22 @@ MANIFEST_TEXT = {
              'exact trace correspondence, not proved); CPython coroutine semantics',
         technique='Lean 4 invariant proof over all action sequences + exact whole-machine differential traces + Lean trace judge',
         design_ref='6 (C09), 3, 4.B'),
+    'C10': dict(
+        level='Lean 4 theorems over an open queue model for every sequence of put / completed receive / close / arbitrary abort actions: '
+              'exactly_once_in_order (received ++ buffered = accepted as sequences), abort_preserves, put_on_closed, closed_stays, '
+              'buffered_still_received; receiver order from the lock theorems of C09 (read mutex). Tied to streams.py by regenerated '
+              'templates; the executable whole-machine model (queue + mutex + notification + kernel) reproduces the real usim to the '
+              'turn on producer/consumer programs with faults injected at every activation boundary, and the Lean judge checks every '
+              'implementation trace.',
+        note='trusted: Lean kernel + standard axioms; templates; abstraction of non-buffer steps into `other` (checked by exact traces)',
+        technique='Lean 4 refinement to a FIFO sequence spec + exact whole-machine differential traces + Lean trace judge',
+        design_ref='6 (C10), 3, 4.B'),
+    'C11': dict(
+        level='Lean 4 theorems over an open channel model for every sequence of subscribe / put / deliver / leave / close actions: '
+              'broadcast_exact (per consumer: delivered ++ buffered = messages put since its subscription), isolation, '
+              'first_after_subscription, deregister_exact, put_on_closed; tied to streams.py by regenerated templates; exact '
+              'whole-machine correspondence and Lean judge on implementation traces.',
+        note='trusted: Lean kernel + standard axioms; templates; CPython finalisation of abandoned async generators',
+        technique='Lean 4 per-consumer refinement invariant + exact whole-machine differential traces + Lean trace judge',
+        design_ref='6 (C11), 3, 4.B'),
 }
